@@ -3,7 +3,9 @@
 package streams
 
 import (
+	"bytes"
 	"fmt"
+	"io"
 	"net/http"
 	"net/http/httptest"
 	"os"
@@ -12,6 +14,7 @@ import (
 	"strconv"
 	"strings"
 	"sync"
+	"time"
 
 	"github.com/tmpim/casket"
 	casketerrors "github.com/tmpim/casket/caskethttp/errors"
@@ -28,8 +31,16 @@ import (
 // recovery, fallback error response) and an httptest recorder plays the client.
 //
 //   0 directives  D<hex scope>[:<hex except>]*,...   1 conc 0|1
-//   2 requests    <hex path>:<ops>:<ret>:<panics>,...  (ops: h<code> / w<n> joined by '.')
+//   2 requests    <hex path>:<ops>:<ret>:<panics>,...  ops joined by '.':
+//                   h<code> WriteHeader   w<n> Write of n bytes   f Flush
+//                   c<n> io.Copy from a plain reader (neither WriterTo nor anything else)
+//                   n<n> io.CopyN          s<n> http.ServeContent of an n-byte file
 //   3 errlens     <status>=<len of default error body>,...
+//   4 wrap        - | errors      (the real errors directive between log and the handler)
+//   5 writer      what is under the log recorder:
+//                   plain  httptest.ResponseRecorder (no io.ReaderFrom — like HTTP/2 or another wrapper)
+//                   rf     the same with an io.ReaderFrom
+//                   h1     a real net/http HTTP/1.1 connection over loopback (io.ReaderFrom, Flusher, …)
 //   out: per directive its lines "id.status.size" joined by '|', directives joined by ';',
 //        then '#', then per request "status.bodylen" of what the client received
 
@@ -45,6 +56,16 @@ type c20Script struct {
 
 type c20Probe struct{ scripts map[string]c20Script }
 
+// c20Zeros is an endless source that is only an io.Reader.
+type c20Zeros struct{}
+
+func (c20Zeros) Read(p []byte) (int, error) {
+	for i := range p {
+		p[i] = 0
+	}
+	return len(p), nil
+}
+
 func (p c20Probe) ServeHTTP(w http.ResponseWriter, r *http.Request) (int, error) {
 	s := p.scripts[r.Header.Get("X-Id")]
 	for _, op := range s.ops {
@@ -54,6 +75,14 @@ func (p c20Probe) ServeHTTP(w http.ResponseWriter, r *http.Request) (int, error)
 			w.WriteHeader(n)
 		case 'w':
 			w.Write(make([]byte, n))
+		case 'f':
+			w.(http.Flusher).Flush()
+		case 'c':
+			io.Copy(w, io.LimitReader(c20Zeros{}, int64(n)))
+		case 'n':
+			io.CopyN(w, c20Zeros{}, int64(n))
+		case 's':
+			http.ServeContent(w, r, "file.bin", time.Time{}, bytes.NewReader(make([]byte, n)))
 		}
 	}
 	if s.panics {
@@ -62,12 +91,19 @@ func (p c20Probe) ServeHTTP(w http.ResponseWriter, r *http.Request) (int, error)
 	return s.ret, nil
 }
 
+// c20RFClient is an in-process client side whose writer implements io.ReaderFrom.
+type c20RFClient struct{ *httptest.ResponseRecorder }
+
+func (c c20RFClient) ReadFrom(src io.Reader) (int64, error) {
+	return io.Copy(struct{ io.Writer }{c.ResponseRecorder}, src)
+}
+
 func c20ErrLen(status int) int {
 	return len(fmt.Sprintf("%d %s\n", status, http.StatusText(status)))
 }
 
 func c20LogEval(f []string) (string, []string) {
-	if len(f) != 5 {
+	if len(f) != 6 {
 		return "bad-case", nil
 	}
 	dir, err := os.MkdirTemp("", "verif-c20-")
@@ -212,11 +248,41 @@ func c20LogEval(f []string) (string, []string) {
 	}
 
 	clients := make([]string, len(reqs))
+	var ts *httptest.Server
+	var hc *http.Client
+	if f[5] == "h1" {
+		ts = httptest.NewServer(http.HandlerFunc(srv.ServeHTTP))
+		defer ts.Close()
+		tr := &http.Transport{DisableCompression: true}
+		defer tr.CloseIdleConnections()
+		hc = &http.Client{Transport: tr, CheckRedirect: func(*http.Request, []*http.Request) error { return http.ErrUseLastResponse }}
+	}
 	do := func(i int) {
+		if ts != nil {
+			req, _ := http.NewRequest("GET", ts.URL+paths[i], nil)
+			req.Header.Set("X-Id", strconv.Itoa(i))
+			resp, err := hc.Do(req)
+			if err != nil {
+				clients[i] = "client-error"
+				return
+			}
+			b, err := io.ReadAll(resp.Body)
+			resp.Body.Close()
+			if err != nil {
+				clients[i] = "client-error"
+				return
+			}
+			clients[i] = fmt.Sprintf("%d.%d", resp.StatusCode, len(b))
+			return
+		}
 		req := httptest.NewRequest("GET", "http://example.test"+paths[i], nil)
 		req.Header.Set("X-Id", strconv.Itoa(i))
 		rec := httptest.NewRecorder()
-		srv.ServeHTTP(rec, req)
+		if f[5] == "rf" {
+			srv.ServeHTTP(c20RFClient{rec}, req)
+		} else {
+			srv.ServeHTTP(rec, req)
+		}
 		clients[i] = fmt.Sprintf("%d.%d", rec.Code, rec.Body.Len())
 	}
 	if f[1] == "1" {
@@ -284,7 +350,26 @@ func c20LogEval(f []string) (string, []string) {
 	if f[4] == "errors" {
 		tags = append(tags, "errors-directive-inside")
 	}
-	return strings.Join(per, ";") + "#" + strings.Join(clients, ","), tags
+	tags = append(tags, "writer="+f[5])
+	for _, sc := range probe.scripts {
+		for _, op := range sc.ops {
+			switch op[0] {
+			case 'c', 'n', 's':
+				tags = append(tags, "body-sent-by-io.Copy:"+f[5])
+			case 'f':
+				tags = append(tags, "flush")
+			}
+		}
+	}
+	seenTag := map[string]bool{}
+	var uniq []string
+	for _, t := range tags {
+		if !seenTag[t] {
+			seenTag[t] = true
+			uniq = append(uniq, t)
+		}
+	}
+	return strings.Join(per, ";") + "#" + strings.Join(clients, ","), uniq
 }
 
 var c20Scopes = []string{"/", "/a", "/a/", "/a/b", "/b", "/ab", "", "/A"}
@@ -294,6 +379,11 @@ var c20Outcomes = []string{
 	":404:0", ":500:0", ":403:0", ":0:0", ":399:0", ":400:0",
 	"::1x", "w5::1x", "h500.w2::1x", // panics (the x is replaced)
 	"w5:500:0", "h200.w5.h404:0:0", "h404.h200.w1:0:0", "w1.h500.w1:502:0",
+	// bodies sent the way the static file server / proxy send them
+	"c5:0:0", "c70000:200:0", "n9:0:0", "s5:0:0", "s80000:0:0", "h200.s12:0:0", "h404.c7:0:0", "c3.w4.n2:0:0",
+	"s0:0:0", "c0:0:0", "c0.h302:404:0", "n0.h404.w3:0:0", "w0.h404:0:0", "c5:500:0", "c5::1x", "w2.f.c40000:0:0",
+	// Flush sends the header
+	"f.w3:0:0", "f:0:0", "f.h404.w2:0:0", "h201.f.n6:0:0", "f:404:0",
 }
 
 func c20Outcome(s string) string {
@@ -302,6 +392,9 @@ func c20Outcome(s string) string {
 	}
 	return s
 }
+
+var c20Kinds = []string{"plain", "rf", "plain", "h1"}
+var c20Kind int
 
 func c20LogCase(g *hx.Gen, dirs []string, conc bool, reqs []string, wrap ...string) {
 	seen := map[int]bool{}
@@ -326,7 +419,13 @@ func c20LogCase(g *hx.Gen, dirs []string, conc bool, reqs []string, wrap ...stri
 	if len(wrap) > 0 {
 		w = wrap[0]
 	}
-	g.Case(strings.Join(dirs, ","), c, strings.Join(reqs, ","), strings.Join(el, ","), w)
+	// what is under the log recorder rotates with the case; a second argument pins it
+	c20Kind++
+	kind := c20Kinds[c20Kind%len(c20Kinds)]
+	if len(wrap) > 1 {
+		kind = wrap[1]
+	}
+	g.Case(strings.Join(dirs, ","), c, strings.Join(reqs, ","), strings.Join(el, ","), w, kind)
 }
 
 func c20Dir(scope string, excepts ...string) string {
@@ -367,8 +466,10 @@ func c20LogGen(g *hx.Gen) {
 	// 2. every outcome on a fixed two-log block, in and out of scope
 	for _, o := range c20Outcomes {
 		for _, p := range []string{"/a/x", "/zzz"} {
-			c20LogCase(g, []string{c20Dir("/a"), c20Dir("/a")}, false, []string{hx.HS(p) + ":" + c20Outcome(o)})
-			c20LogCase(g, []string{c20Dir("/a"), c20Dir("/a")}, false, []string{hx.HS(p) + ":" + c20Outcome(o)}, "errors")
+			for _, kind := range []string{"plain", "rf", "h1"} {
+				c20LogCase(g, []string{c20Dir("/a"), c20Dir("/a")}, false, []string{hx.HS(p) + ":" + c20Outcome(o)}, "-", kind)
+				c20LogCase(g, []string{c20Dir("/a"), c20Dir("/a")}, false, []string{hx.HS(p) + ":" + c20Outcome(o)}, "errors", kind)
+			}
 		}
 	}
 	c20LogCase(g, nil, false, allReqs())
@@ -394,9 +495,18 @@ func c20LogGen(g *hx.Gen) {
 				// random script
 				var ops []string
 				for j, m := 0, g.Rng.Intn(4); j < m; j++ {
-					if g.Rng.Chance(1, 3) {
+					switch g.Rng.Intn(6) {
+					case 0, 1:
 						ops = append(ops, fmt.Sprintf("h%d", hx.Pick(g.Rng, []int{200, 201, 302, 404, 500, 503})))
-					} else {
+					case 2:
+						ops = append(ops, fmt.Sprintf("%s%d", hx.Pick(g.Rng, []string{"c", "n"}), g.Rng.Intn(70000)))
+					case 3:
+						if g.Rng.Bool() {
+							ops = append(ops, "f")
+						} else {
+							ops = append(ops, fmt.Sprintf("c%d", g.Rng.Intn(40)))
+						}
+					default:
 						ops = append(ops, fmt.Sprintf("w%d", g.Rng.Intn(70000)))
 					}
 				}
@@ -407,7 +517,7 @@ func c20LogGen(g *hx.Gen) {
 			}
 			reqs = append(reqs, hx.HS(hx.Pick(g.Rng, c20Paths))+":"+c20Outcome(o))
 		}
-		c20LogCase(g, dirs, g.Rng.Chance(1, 2), reqs, hx.Pick(g.Rng, []string{"-", "-", "errors"}))
+		c20LogCase(g, dirs, g.Rng.Chance(1, 2), reqs, hx.Pick(g.Rng, []string{"-", "-", "errors"}), hx.Pick(g.Rng, []string{"plain", "plain", "rf", "h1"}))
 	}
 }
 
